@@ -1,6 +1,7 @@
 """C18 - incoming messages reach exactly the responders that should fire."""
 
 import ast
+import re
 import re as _re
 
 from ..loader import norm, full, walk_local, walk_local_ordered, qualname_of, dump_name
@@ -34,6 +35,19 @@ def rule_anchor(ctx):
            f'registered at /foobar', f.node, m)
     ctx.ob('C18.anchor', f'{f.fq}:operands', bool(cs) and [norm(a) for a in cs[0].args[:2]] == [f.params[0], f.params[1]],
            'the message address is the pattern, the responder path the subject', f.node, m)
+    # the incoming address is compiled as a regular expression: an address that is not a well-formed pattern ('/a[') must not
+    # raise out of the matcher (the dispatchers after this one would never see the message); it simply matches nothing
+    trs = [t for t in walk_local(f.node) if isinstance(t, ast.Try)]
+    ok = False
+    for t in trs:
+        inside = any(c in list(U.calls(ast.Module(body=t.body, type_ignores=[]))) for c in cs)
+        hn = [norm(h.type) if h.type is not None else 'bare' for h in t.handlers]
+        falsy = all(len(h.body) == 1 and isinstance(h.body[0], ast.Return) and norm(h.body[0].value) == 'False' for h in t.handlers)
+        if inside and falsy and any(x in ('re.error', 'Exception', 'bare') for x in hn):
+            ok = True
+    ctx.ob('C18.anchor', f'{f.fq}:malformed-pattern', ok,
+           'compiling the incoming address can raise re.error (unbalanced [ or {, reversed range): the matcher must catch it and '
+           'return False', f.node, m)
     tab = U.literal(m.assigns.get('_rewrite_symbols'))
     ctx.require(isinstance(tab, dict), 'C18.anchor', '_rewrite_symbols is not a literal dict')
     special = set('.^$*+?{}[]\\|()')
@@ -57,7 +71,7 @@ DISPATCH_SITES = [
     'sc3.base.responders:OscMessagePatternDispatcher.__call__',
     'sc3.base._oscinterface:OscInterface._msg_dispatch.<locals>.sched_func',
     'sc3.base.systemactions:SystemAction.run',
-    'sc3.base.systemactions:ServerAction.run',
+    'sc3.base.systemactions:ServerAction._run_actions',
     'sc3.base.model:NotificationCenter.notify',
     'sc3.base.responders:MidiMessageDispatcher.__call__',
     'sc3.base._midiinterface:MidiRtInterface._msg_dispatch.<locals>.sched_func',
@@ -110,6 +124,25 @@ def rule_snap(ctx):
         ctx.ob('C18.snap', f'{fq}:recheck', ok, 'a responder freed by an earlier responder of the same message must not be invoked', f.node, f.module)
     sa = ctx.repo.func('sc3.base.systemactions:SystemAction._do_action')
     ctx.ob('C18.snap', f'{sa.fq}:recheck', f'if {sa.params[1]} in cls._actions:' in full(sa.node), 'system actions re-check registration before running', sa.node, sa.module)
+    # the other two registries: every invocation inside the snapshot loop is guarded by a membership test on the live registry
+    for fq, live in (('sc3.base.systemactions:ServerAction._run_actions', 'cls._servers'), ('sc3.base.model:NotificationCenter.notify', 'cls._registrations')):
+        f = ctx.repo.func(fq)
+        loops = [x for x in walk_local(f.node) if isinstance(x, ast.For)]
+        ok = bool(loops)
+        for lp in loops:
+            calls = [c for c in U.calls(lp) if norm(c.func) in ('action', 'fn.value')]
+            for c in calls:
+                inside = {id(x) for x in ast.walk(lp)}
+                guarded = any(isinstance(p_, ast.If) and id(p_) in inside and U.in_body(c, p_, 'body') and ' in ' + live in norm(p_.test)
+                              for p_ in U.parent_chain(c))
+                ok = ok and guarded
+            ok = ok and bool(calls)
+        ctx.ob('C18.snap', f'{fq}:recheck', ok,
+               f'an action removed by an earlier action of the same run must not be run: each call needs a membership test on {live}', f.node, f.module)
+    sr = ctx.repo.func('sc3.base.systemactions:ServerAction.run')
+    src = full(sr.node)
+    ok = U.before(src, 'cls._run_actions(server, server)', "cls._run_actions('default', server)", "cls._run_actions('all', server)")
+    ctx.ob('C18.snap', f'{sr.fq}:groups', ok, 'server actions run for the server, then the default group, then all', sr.node, sr.module)
 
 
 REGISTRIES = [
@@ -220,6 +253,24 @@ def rule_order(ctx):
         ok = len(body) == 2 and body[0].endswith(f' = self.active[{k}].index(old_func)') and \
             body[1] == f'self.active[{k}][{body[0].split(" = ")[0]}] = func'
     ctx.ob('C18.order', f'{u.fq}:in-place', ok, 'replacing a responder function overwrites the old wrapper at its index on every path key', u.node, d.module)
+    # recorded, not repaired (known findings): responders live in per-dispatcher, per-path lists
+    md = ctx.repo.func('sc3.base.responders:OscMessagePatternDispatcher.__call__')
+    outer = [x for x in walk_local(md.node) if isinstance(x, ast.For) and 'self.active' in norm(x.iter)]
+    ctx.ob('C18.order', f'{md.fq}:path-grouped', not outer,
+           'the matching dispatcher walks its registry path by path: matching responders registered A(/x/1), B(/x/2), C(/x/1) fire A, C, B '
+           'for /x/* (grouped by path, not in registration order)', md.node, md.module)
+    of = ctx.repo.cls('sc3.base.responders:OscFunc')
+    two = '_default_dispatcher' in of.class_assigns or any('_default_matching_dispatcher' in norm(x) for x in ast.walk(of.node))
+    ctx.ob('C18.order', f'{of.fq}:two-dispatchers', not two,
+           'plain and matching responders are kept by two dispatchers that the receiver calls one after the other: plain A, matching B, '
+           'plain C on one path fire A, C, B', of.node, of.module)
+    ed = ctx.repo.func('sc3.base.responders:OscMessageDispatcher.__call__')
+    by_wrapper = any(isinstance(x, ast.If) and re.fullmatch(r'func in self\.active\.get\(.+\)', norm(x.test)) for x in walk_local(ed.node))
+    replaces = 'self.active[key][i] = func' in full(u.node)
+    ctx.ob('C18.order', f'{ed.fq}:recheck-by-wrapper', not (by_wrapper and replaces),
+           'the re-check before each call looks for the snapshot wrapper in the live list, and a function replacement swaps the wrapper: '
+           'a responder whose function an earlier responder of the same message replaces (func setter, one_shot) is skipped for that message',
+           ed.node, ed.module)
     mi = ctx.repo.try_cls('sc3.base._midiinterface:MidiRtInterface')
     if mi is not None:
         src = full(mi.methods['__init__'].node)
@@ -328,7 +379,34 @@ def rule_recv(ctx):
     ctx.ob('C18.recv', f'{d.fq}', ok, 'dispatch runs on the clock with (message, time, sender, port); each function gets its own copy of the message', d.node, d.module)
 
 
+def rule_tags(ctx):
+    ctx.rule('C18.wire', 'the message reader consumes the data of every type tag it accepts and refuses the tags it does not handle: '
+                         'a skipped tag with data would shift every later argument')
+    m = ctx.repo.module('sc3.base._osclib')
+    f = m.functions['OscMessage._parse_datagram']
+    loops = [x for x in walk_local(f.node) if isinstance(x, ast.For) and norm(x.iter) == 'type_tag']
+    ctx.require(len(loops) == 1, 'C18.wire', 'type tag loop not found')
+    node = loops[0].body[0]
+    n = 0
+    while isinstance(node, ast.If):
+        tag = norm(node.test)
+        body = [norm(x) for x in node.body]
+        n += 1
+        if len(node.orelse) == 1 and isinstance(node.orelse[0], ast.If):
+            node = node.orelse[0]
+            continue
+        # final else: unknown tag
+        eb = node.orelse
+        ok = bool(eb) and isinstance(eb[-1], ast.Raise) and 'OscMessageParseError' in norm(eb[-1])
+        ctx.ob('C18.wire', f'{f.fq}:unknown-tag', ok,
+               f'an unhandled type tag must end the parse with OscMessageParseError (found {[norm(x)[:40] for x in eb]}): its data size '
+               f'is unknown, so continuing reads the following arguments at the wrong offset', loops[0], m)
+        break
+    ctx.require(n >= 10, 'C18.wire', f'only {n} type tag branches found')
+
+
 def run(ctx):
+    rule_tags(ctx)
     rule_anchor(ctx)
     rule_snap(ctx)
     rule_effect(ctx)
@@ -338,6 +416,14 @@ def run(ctx):
 
 
 MUTANTS = [
+    dict(rule='C18.anchor', name='(fix reverted) re.error escapes the pattern matcher', file='sc3/base/_oscmatch.py',
+         old="    try:\n        return re.fullmatch(pattern, address) is not None\n    except re.error:\n        return False  # A malformed pattern ('/a[', '/a{x') matches nothing.\n", new="    return re.fullmatch(pattern, address) is not None\n"),
+    dict(rule='C18.wire', name='(fix reverted) unknown type tags are skipped without consuming their data', file='sc3/base/_osclib.py',
+         old="                    raise OscMessageParseError(\n                        f'Unhandled parameter type: {param}')\n", new="                    _logger.warning(f'Unhandled parameter type: {param}')\n                    continue\n"),
+    dict(rule='C18.snap', name='(fix reverted) ServerAction runs an action removed during the run', file='sc3/base/systemactions.py',
+         old="            if action in cls._servers.get(key, ()):\n                action(server, *pk[0], **pk[1])", new="            action(server, *pk[0], **pk[1])"),
+    dict(rule='C18.snap', name='(fix reverted) notify calls a listener unregistered during the notification', file='sc3/base/model.py',
+         old="                if listener in cls._registrations.get(obj, {}).get(msg, ()):\n                    fn.value(action, obj, msg, listener, *args, **kwargs)", new="                fn.value(action, obj, msg, listener, *args, **kwargs)"),
     dict(rule='C18.order', name='function replacement moves the responder to the end (seed C18-b)', file='sc3/base/responders.py',
          old="            i = self.active[key].index(old_func)\n            self.active[key][i] = func", new="            self.active[key].remove(old_func)\n            self.active[key].append(func)"),
     dict(rule='C18.anchor', name='(fix reverted) re.match', file='sc3/base/_oscmatch.py',
